@@ -177,7 +177,7 @@ theorem cfloat_prologue_spec (c : Cfg) (op : Op) (a b : Nat) (hf : c.es + 2 ≤ 
        match op with
        | .add | .sub | .mul =>
          if anyS then { throws := some .cfloat_operand_is_nan, qEarly := some (CFloat.nanEnc c .signalling) }
-         else if anyQ then { qEarly := some (CFloat.nanEnc c .quiet) }
+         else if anyQ then { tEarly := some (CFloat.nanEnc c .quiet), qEarly := some (CFloat.nanEnc c .quiet) }
          else {}
        | .div =>
          { throws :=
